@@ -811,6 +811,8 @@ def check_C17(rep, fl):
     check_admission_metrics(rep, fl)
     check_dropsets(rep, fl)
     check_metrics_core(rep, fl)
+    # "from any number of threads": every handle counts into the same Metrics and drives the same policy
+    check_handle_sharing(rep, fl, fields=("metrics", "policy", "store", "insert_buf_tx"))
 
 
 # ----------------------------------------------------------------------------------------
